@@ -739,6 +739,63 @@ func ruleLayering(c *Ctx, r *Repo, cp *packages.Package) {
 	} else {
 		c.Fail("R08.5", "NewRootConfig|layer-order", r.Pos(fd.Pos()), fmt.Sprintf("configuration sources are loaded in the order %v, want %v (later sources take precedence)", got, want))
 	}
+	// every source is loaded unconditionally; the only admissible guard is "a flag set was given" around the
+	// flags layer (mechanical-mutation finding: the order of the Load calls said nothing about whether they run)
+	{
+		fc := newFuncCanonG(cp, fd)
+		var stack []ast.Node
+		ast.Inspect(fd.Body, func(n ast.Node) bool {
+			if n == nil {
+				stack = stack[:len(stack)-1]
+				return true
+			}
+			stack = append(stack, n)
+			call, ok := n.(*ast.CallExpr)
+			if !ok {
+				return true
+			}
+			name := calleeName(info, call)
+			isLoad := strings.HasSuffix(name, "koanf/v2.Koanf).Load") && len(call.Args) >= 1
+			isDecode := strings.HasSuffix(name, "koanf/v2.Koanf).UnmarshalWithConf") || strings.HasSuffix(name, "koanf/v2.Koanf).Unmarshal")
+			if !isLoad && !isDecode {
+				return true
+			}
+			kind := "decode"
+			if isLoad {
+				kind = provKind(info.TypeOf(call.Args[0]))
+			}
+			for i := len(stack) - 2; i >= 0; i-- {
+				switch x := stack[i].(type) {
+				case *ast.IfStmt:
+					child := stack[i+1]
+					if child == x.Init || child == ast.Node(x.Cond) {
+						continue
+					}
+					cond := fc.E(x.Cond)
+					inElse := child == x.Else
+					okGuard := false
+					if kind == "flags" {
+						for _, f := range fd.Type.Params.List {
+							for _, nm := range f.Names {
+								if strings.Contains(shortType(info.TypeOf(f.Type)), "pflag.FlagSet") {
+									a := fc.Obj(info.Defs[nm])
+									if !inElse && cond == a+" != nil" || inElse && cond == a+" == nil" {
+										okGuard = true
+									}
+								}
+							}
+						}
+					}
+					c.Check(okGuard, "R08.5", "NewRootConfig|layer-unconditional|"+kind, r.Pos(x.Pos()), "the "+kind+" layer is applied whenever its source exists", fmt.Sprintf("the %s layer is applied only under the condition %q (else-branch: %v): the source is skipped for some runs", kind, cond, inElse))
+				case *ast.ForStmt, *ast.RangeStmt, *ast.SwitchStmt, *ast.TypeSwitchStmt, *ast.FuncLit:
+					if _, isRange := x.(*ast.RangeStmt); !isRange {
+						c.Fail("R08.5", "NewRootConfig|layer-unconditional|"+kind, r.Pos(x.Pos()), "the "+kind+" layer is applied inside a loop, switch or closure; whether it runs is not decided")
+					}
+				}
+			}
+			return true
+		})
+	}
 	// NewDefaultKoanf loads the defaults through the structs provider
 	if nd := FuncDecl(cp, "NewDefaultKoanf"); nd != nil {
 		ok := false
